@@ -59,7 +59,10 @@ def cases(rng, tier):
                 dta, dtb = rng.choice(pairs)
                 side = rng.choice(["left", "right"])
                 uf = rng.choice(UNARY) if kind == "unary" else rng.choice(_ufuncs_for(dta, dtb))
-                p = {"lens": lens, "kind": kind, "side": side, "uf": uf, "dta": dta, "dtb": dtb, "vseed": rng.randint(0, 999)}
+                p = {"lens": lens, "kind": kind, "side": side, "uf": uf, "dta": dta, "dtb": dtb, "vseed": rng.randint(0, 999),
+                     # the ragged operand(s) are sometimes the RESULT of an earlier, value-preserving operation (a ufunc, a selection
+                     # of all rows, a same-dtype astype): a derived array must behave - and refuse - like a freshly built one
+                     "derived": rng.choice([None, None, "ufunc", "select", "astype"])}
                 if kind == "ragged_bad":
                     if n == 0:
                         continue
@@ -84,7 +87,7 @@ def cases(rng, tier):
 
 
 def key(p):
-    return engine.stable_hash([p["lens"], p["kind"], p["side"], p["uf"], p["dta"], p["dtb"], p.get("other"), p.get("ncol"), p.get("s")])
+    return engine.stable_hash([p["lens"], p["kind"], p["side"], p["uf"], p["dta"], p["dtb"], p.get("other"), p.get("ncol"), p.get("s"), p.get("derived")])
 
 
 def nontrivial(p):
@@ -95,6 +98,7 @@ def distribution(ps):
     d = gens.shape_stats([p["lens"] for p in ps])
     d["kinds"] = gens.hist(p["kind"] + ":" + p["side"] for p in ps)
     d["ufuncs"] = gens.hist(p["uf"] for p in ps)
+    d["operand_derivation"] = gens.hist(p.get("derived") or "fresh" for p in ps)
     d["dtype_pairs_distinct"] = len({(p["dta"], p["dtb"]) for p in ps})
     return d
 
@@ -123,11 +127,21 @@ def _operands(p):
     return a, other
 
 
+def _derive(ra, how):
+    if how == "ufunc":
+        return np.maximum(ra, ra)
+    if how == "select":
+        return ra[:]
+    if how == "astype":
+        return ra.astype(ra.dtype)
+    return ra
+
+
 def run_impl(p):
     from npstructures import RaggedArray
     def f():
         a, other = _operands(p)
-        ra = RaggedArray(a.copy(), list(p["lens"]))
+        ra = _derive(RaggedArray(a.copy(), list(p["lens"])), p.get("derived"))
         uf = getattr(np, p["uf"])
         k = p["kind"]
         with np.errstate(all="ignore"), warnings.catch_warnings():
@@ -138,9 +152,9 @@ def run_impl(p):
                 if k in ("column", "column_bad"):
                     x = other.reshape(-1, 1).copy()
                 elif k == "ragged":
-                    x = RaggedArray(other.copy(), list(p["lens"]))
+                    x = _derive(RaggedArray(other.copy(), list(p["lens"])), p.get("derived"))
                 elif k == "ragged_bad":
-                    x = RaggedArray(other.copy(), list(p["other"]))
+                    x = _derive(RaggedArray(other.copy(), list(p["other"])), p.get("derived"))
                 else:
                     x = other
                 res = uf(ra, x) if p["side"] == "right" else uf(x, ra)
